@@ -197,6 +197,12 @@ const objectData = "data:image/svg+xml;base64,PHN2ZyB4bWxucz0naHR0cDovL3d3dy53My
 // default display (inline); clause I8 is then not applicable.
 var contentsSupported bool
 
+// runningBlockifiesTableParts is detected once (Init). GCPM does not say what the display of a
+// running element (position:running()) computes to. The implementation either keeps a table-part
+// display (the element stays in the table structure, out of the flow) or blockifies it as
+// CSS 2.1 §9.7 does for the other out-of-flow boxes: the reference follows.
+var runningBlockifiesTableParts bool
+
 func newDoc(shape []int, ds []disp, x extra) *docCase {
 	n := len(shape)
 	dc := &docCase{shape: shape, x: x}
@@ -374,6 +380,8 @@ func (dc *docCase) computeRef() {
 			nd.cd = dInline
 		case nd.x == xAbs || nd.x == xFixed || nd.x == xFloat:
 			nd.cd = blockify(spec)
+		case nd.x == xRunning && spec.tablePart() && runningBlockifiesTableParts:
+			nd.cd = dBlock
 		case pp.cd.flexContainer() || pp.cd.gridContainer():
 			nd.cd = blockify(spec)
 		}
